@@ -18,6 +18,7 @@ import (
 	"sort"
 	"strings"
 	"sync"
+	"syscall"
 	"testing"
 
 	fpgo "github.com/TeaEntityLab/fpGo/v2"
@@ -186,7 +187,13 @@ type respSpec struct {
 	// Announce = the response's ContentLength field carries the body's length (else -1, unknown)
 	Chunk    int  `json:"chunk,omitempty"`
 	Announce bool `json:"announce,omitempty"`
+	// ErrKind (transport fault): which error the transport reports (index into transportErrs): whatever it
+	// is, the evaluation has sent its one request and the error comes back as Err
+	ErrKind int `json:"errKind,omitempty"`
 }
+
+var transportErrs = []error{errTransport, io.EOF, io.ErrUnexpectedEOF, fmt.Errorf("c17: read tcp 10.0.0.1:443: %w", io.EOF),
+	context.DeadlineExceeded, syscall.ECONNRESET, os.ErrDeadlineExceeded}
 
 // chunkReader hands out at most n bytes per Read (n <= 0: as many as fit)
 type chunkReader struct {
@@ -381,7 +388,7 @@ func (s *stubRT) RoundTrip(req *http.Request) (*http.Response, error) {
 		spec = s.plan[idx]
 	}
 	if spec.Fault == fTransport {
-		return nil, errTransport
+		return nil, transportErrs[spec.ErrKind%len(transportErrs)]
 	}
 	// like net/http's transport, the response body can only be read while the request context is alive
 	var body io.ReadCloser = io.NopCloser(&ctxReader{ctx: req.Context(), r: &chunkReader{r: strings.NewReader(spec.Body), n: spec.Chunk}})
@@ -743,6 +750,25 @@ func runCase[R any](c *apiCase, rk rKind[R]) (res result) {
 		}
 	}
 
+	// what every evaluation handed back, looked at again after all later evaluations of the same MonadIO:
+	// a result belongs to its evaluation
+	type handedBack struct {
+		r        *network.APIResponse[R]
+		err      error
+		httpResp *http.Response
+	}
+	var kept []handedBack
+	defer func() {
+		if res.key != "" {
+			return
+		}
+		for j, k := range kept {
+			if k.r.Err != k.err || k.r.Response != k.httpResp {
+				res.fail("C17/result-changed", "evaluation %d handed back Err=%v and the response %p; after %d further evaluation(s) the value it handed back holds Err=%v and the response %p", j, k.err, k.httpResp, len(kept)-1-j, k.r.Err, k.r.Response)
+				return
+			}
+		}
+	}()
 	for i := 0; i < len(c.Resp); i++ {
 		sent := stub.count()
 		serBefore := serCalls
@@ -756,6 +782,7 @@ func runCase[R any](c *apiCase, rk rKind[R]) (res result) {
 			res.fail("C17/nil-response", "evaluation %d returned a nil *APIResponse", i)
 			return
 		}
+		kept = append(kept, handedBack{resp, resp.Err, resp.Response})
 		n := stub.count() - sent
 		if c.Ser == serBrokenReader && serCalls > serBefore && urlErr == nil {
 			// the body the serializer produced cannot be read to its end: the request cannot have been
@@ -876,8 +903,8 @@ func runCase[R any](c *apiCase, rk rKind[R]) (res result) {
 		spec := c.Resp[i]
 		switch {
 		case spec.Fault == fTransport:
-			if !errors.Is(resp.Err, errTransport) {
-				res.fail("C17/fault:transport", "evaluation %d: transport failed but Err=%v", i, resp.Err)
+			if want := transportErrs[spec.ErrKind%len(transportErrs)]; !errors.Is(resp.Err, want) {
+				res.fail("C17/fault:transport", "evaluation %d: the transport failed with %v but Err=%v", i, want, resp.Err)
 				return
 			}
 		case spec.Fault == fBodyRead:
@@ -1261,6 +1288,9 @@ func genCase(t *rapid.T) *apiCase {
 	for i := 0; i < nEval; i++ {
 		r := respSpec{Body: rapid.SampledFrom(bodies).Draw(t, "respBody")}
 		r.Fault = rapid.SampledFrom([]int{fNone, fNone, fNone, fNone, fTransport, fBodyRead}).Draw(t, "fault")
+		if r.Fault == fTransport {
+			r.ErrKind = rapid.IntRange(0, len(transportErrs)-1).Draw(t, "errKind")
+		}
 		r.Chunk = rapid.SampledFrom([]int{0, 0, 1, 3, 16}).Draw(t, "chunk")
 		r.Announce = rapid.Bool().Draw(t, "announce")
 		c.Resp = append(c.Resp, r)
